@@ -86,8 +86,20 @@ def kernel_obligation(T: str, D: str, table, kind="cset") -> Dict:
 
 
 # ----------------------------------------------------------------------------- entry points x dtype configurations
-def sample(T: str, n=3):
+def sample(T: str, n=3, variant: int = 0):
     dt = numpy.dtype(T)
+    if variant == 1:
+        # the edges of the dtype: extreme integers; smallest subnormal, half the smallest normal and the largest finite float
+        if dt.kind == "b":
+            return numpy.array([False, True, True][:n], dtype=dt)
+        if dt.kind in "iu":
+            info = numpy.iinfo(dt)
+            return numpy.array([info.max, info.min, info.max - 1][:n], dtype=dt)
+        fi = numpy.finfo(dt)
+        vals = [float(fi.smallest_subnormal), -float(fi.tiny) / 2, float(fi.max)]
+        if dt.kind == "c":
+            return numpy.array([complex(vals[0], -vals[0]), complex(0.0, vals[1]), complex(vals[2], 0.0)][:n], dtype=dt)
+        return numpy.array(vals[:n], dtype=dt)
     if dt.kind == "b":
         return numpy.array([True, False, True][:n], dtype=dt)
     if dt.kind == "u":
@@ -99,18 +111,35 @@ def sample(T: str, n=3):
     return numpy.array([1.5 + 2j, -2.25j, 7.0][:n], dtype=dt)
 
 
+def _lin(T: str, variant: int = 0):
+    """Coefficient array of the non-constant term: ones; in the edge variant values that are *all* subnormal (floats) / extreme (ints),
+    so that a term made of nothing but such values must survive cleaning."""
+    dt = numpy.dtype(T)
+    if variant == 0 or dt.kind == "b":
+        return numpy.ones(3, dtype=dt)
+    if dt.kind in "iu":
+        info = numpy.iinfo(dt)
+        return numpy.array([1, info.max, info.min if info.min else 2], dtype=dt)
+    fi = numpy.finfo(dt)
+    s = float(fi.smallest_subnormal)
+    vals = [s, -3 * s, float(fi.tiny) / 2]
+    if dt.kind == "c":
+        return numpy.array([complex(vals[0], 0), complex(0, vals[1]), complex(vals[2], -vals[0])], dtype=dt)
+    return numpy.array(vals, dtype=dt)
+
+
 def _poly(T, arr_const, arr_lin):
     import numpoly
 
     return numpoly.polynomial_from_attributes([[0], [1]], [arr_const, arr_lin], names=("q0",), dtype=T)
 
 
-def entry_points(T: str, D: str):
+def entry_points(T: str, D: str, variant: int = 0):
     """(label, thunk returning the polynomial, expected {exponent: ndarray in numpy's own dtype})."""
     import numpoly
 
-    xT, yD = sample(T), sample(D)
-    one = numpy.ones(3, dtype=T)
+    xT, yD = sample(T, variant=variant), sample(D, variant=variant)
+    one = _lin(T, variant)
     eps: List[Tuple[str, Any, Any]] = []
     with numpy.errstate(all="ignore"):
         castTD = xT.astype(D)
@@ -140,7 +169,7 @@ def entry_points(T: str, D: str):
         eps.append(("full", lambda: numpoly.full((2,), _poly(T, xT[:1], one[:1])[0]), {(0,): numpy.full((2,), xT[0]), (1,): numpy.full((2,), one[0])}))
     eps.append(("astype(D)", lambda: _poly(T, xT, one).astype(D), {(0,): castTD, (1,): one.astype(D)}))
     # arithmetic between dtypes: numpy's promoted dtype and values on the raw arrays
-    oneD = numpy.ones(3, dtype=D)
+    oneD = _lin(D, variant)
     with numpy.errstate(all="ignore"):
         try:
             eps.append(("p_T + p_D", lambda: _poly(T, xT, one) + _poly(D, yD, oneD), {(0,): xT + yD, (1,): one + oneD}))
@@ -210,7 +239,7 @@ def run_dtype_pair(case: Dict) -> Dict:
     nq = 0
     solver_s = 0.0
     try:
-        eps = entry_points(T, D)
+        eps = entry_points(T, D, case.get("variant", 0))
     except Exception as e:
         return {"case": case, "harness_error": "entry_points: %s: %s" % (type(e).__name__, e), "paths": 0}
     for label, thunk, expected in eps:
@@ -327,6 +356,7 @@ def gen_cases(tier: str, seed: int) -> List[Dict]:
         pairs = diag + special + rest[:50]
     for T, D in pairs:
         cases.append({"id": "C12-A-%s-%s" % (T, D), "op": "dtype", "part": "A", "T": T, "D": D})
+        cases.append({"id": "C12-A-%s-%s-edges" % (T, D), "op": "dtype", "part": "A", "T": T, "D": D, "variant": 1})
     # Part B: catalogue under Havoc
     for src in SOURCES:
         mod = importlib.import_module("nv.checks." + src)
